@@ -1,6 +1,7 @@
 package main
 
 import (
+	"sync"
 	"encoding/hex"
 	"fmt"
 	"strconv"
@@ -75,8 +76,19 @@ func okHex(b []byte, err error) string {
 }
 
 func fail(prop, sig, format string, a ...interface{}) Fail {
-	return Fail{Prop: prop, Sig: sig, Msg: fmt.Sprintf(format, a...)}
+	f := Fail{Prop: prop, Sig: sig, Msg: fmt.Sprintf(format, a...)}
+	trailMu.Lock()
+	opTrail = append(opTrail, f)
+	trailMu.Unlock()
+	return f
 }
+
+// opTrail: the failures an operation has produced so far. If the operation itself is taken down by a panic of the
+// library (an unprotected call further down), execCase reports the trail instead of losing it.
+var (
+	opTrail []Fail
+	trailMu sync.Mutex
+)
 
 // isSuffix reports whether rem is exactly the tail of w (by content and position).
 func isSuffix(w, rem []byte) bool {
